@@ -43,8 +43,11 @@ Lemma s2k_then_wf k : wf k -> wf (s2k_then k).
 Proof. intros H. unfold s2k_then. fmt_tac. Qed.
 Lemma s2k_then_sd k : sd k -> sd (s2k_then k) -> True. Proof. auto. Qed.
 
+Lemma iv_fmt_wf s : wf (iv_fmt s). Proof. unfold iv_fmt. fmt_tac. Qed.
+Lemma nonce_fmt_wf s : wf (nonce_fmt s). Proof. unfold nonce_fmt. fmt_tac. Qed.
+
 Lemma skesk_wf : wf skesk.
-Proof. unfold skesk. fmt_tac; try apply s2k_then_wf; fmt_tac. Qed.
+Proof. unfold skesk. fmt_tac; try apply s2k_then_wf; fmt_tac; try apply nonce_fmt_wf. Qed.
 
 Lemma pkesk_fields_wf a : wf (pkesk_fields a).
 Proof. unfold pkesk_fields. fmt_tac. Qed.
@@ -94,8 +97,11 @@ Qed.
 Lemma public_key_wf : wf public_key.
 Proof. apply key_then_wf. intros; constructor. Qed.
 
-Lemma secret_part_wf v : wf (secret_part v).
-Proof. unfold secret_part. fmt_tac; try apply s2k_then_wf; fmt_tac. Qed.
+Lemma plain_secret_wf v a : wf (plain_secret v a).
+Proof. unfold plain_secret. fmt_tac. Qed.
+
+Lemma secret_part_wf v a : wf (secret_part v a).
+Proof. unfold secret_part. fmt_tac; try apply s2k_then_wf; fmt_tac; try apply nonce_fmt_wf; try apply iv_fmt_wf; try apply plain_secret_wf. Qed.
 
 Lemma secret_key_wf : wf secret_key.
 Proof. apply key_then_wf. intros; apply secret_part_wf. Qed.
